@@ -4,6 +4,7 @@ package main
 // GetKid / KidToDid, base64url, and the generated proto Marshal of request payloads.
 
 import (
+	"regexp"
 	"go/types"
 	"strings"
 
@@ -17,6 +18,12 @@ type GhostVerify struct {
 }
 
 const didPkg = "github.com/SaoNetwork/sao-did"
+
+var didPrefixRe = regexp.MustCompile("^did:[a-z0-9]+:$")
+
+// didIdRe: the plain id class, in exactly the form the translator gives the harness's pattern (so that the
+// path condition can be looked up syntactically)
+var didIdRe, _ = reToSmt("^[a-zA-Z0-9._-]+$")
 
 func init() {
 	reg(didPkg+".NewDidManagerWithDid", func(m *Machine, fn *ssa.Function, a []Value) Value {
@@ -80,6 +87,24 @@ func init() {
 		s := a[0].(*Term)
 		ok := m.in.UF("parsabledid", SBool, s)
 		dt := fn.Signature.Results().At(0).Type().(*types.Pointer).Elem()
+		// a DID built as "did:<method>:" ++ id with an id known to be plain ([a-zA-Z0-9._-]+, no path / query /
+		// fragment) is parsed exactly: success, that method, that id
+		if ps := m.in.concatParts(s); len(ps) == 2 && ps[0].IsConst() && didPrefixRe.MatchString(ps[0].sv) && m.pcHolds(m.in.StrInRe(ps[1], didIdRe, nil)) {
+			st := under(dt).(*types.Struct)
+			f := make([]Value, st.NumFields())
+			for i := 0; i < st.NumFields(); i++ {
+				f[i] = m.zero(st.Field(i).Type())
+				switch st.Field(i).Name() {
+				case "Method":
+					f[i] = m.in.Str(strings.TrimSuffix(strings.TrimPrefix(ps[0].sv, "did:"), ":"))
+				case "ID":
+					f[i] = ps[1]
+				}
+			}
+			c := m.newCell(dt, 1, "did")
+			c.elems[0] = &StructVal{f: f}
+			return TupleVal{Pointer{cell: c}, nilIface}
+		}
 		if !m.branch(ok) {
 			return TupleVal{Pointer{}, m.newError(m.in.Str("invalid did"))}
 		}
